@@ -225,6 +225,9 @@ pub fn feature_modules() -> Vec<(&'static str, String)> {
         m("values", "a INTEGER ::= 5 b BOOLEAN ::= TRUE c NULL ::= NULL d UTF8String ::= \"he said \"\"hi\"\"\" e BIT STRING ::= '0101'B f OCTET STRING ::= 'AF09'H g OBJECT IDENTIFIER ::= { iso member-body(2) 840 } h INTEGER ::= -17 i INTEGER ::= a"),
         m("values2", "E ::= ENUMERATED { x, y } e E ::= y C ::= CHOICE { n INTEGER, b BOOLEAN } c C ::= n : 5 S ::= SEQUENCE { p INTEGER, q BOOLEAN } s S ::= { p 1, q TRUE } L ::= SEQUENCE OF INTEGER l L ::= { 1, 2, 3 } B ::= BIT STRING { r(0), s(2) } bb B ::= { r, s }"),
         m("defaults", "E ::= ENUMERATED { x, y } S ::= SEQUENCE { a INTEGER (0..10) DEFAULT 5, b E DEFAULT y, c BIT STRING { p(0), q(1) } DEFAULT { q }, d OCTET STRING DEFAULT 'FF'H, e BOOLEAN DEFAULT FALSE }"),
+        m("values3", "Sv ::= SEQUENCE { a INTEGER, b BOOLEAN OPTIONAL } sv Sv ::= { a 1, b TRUE } Lv ::= SEQUENCE OF INTEGER lv Lv ::= { 5 } Cv ::= CHOICE { s Sv, l Lv } cv Cv ::= l:{ 7 } cw Cv ::= s:{ a 2, b FALSE }"),
+        m("upper-type-names", "PDU ::= SEQUENCE { id INTEGER (0..7), ok BOOLEAN } msg PDU ::= { id 1, ok TRUE } ID ::= INTEGER (0..7) one ID ::= 1 LIST ::= SEQUENCE OF ID lst LIST ::= { 1, 2 } Hld ::= SEQUENCE { p PDU DEFAULT { id 2, ok FALSE } }"),
+        m("value-named-like-type", "PDU ::= SEQUENCE { id INTEGER (0..7) } pdu PDU ::= { id 1 } Abc ::= INTEGER abc Abc ::= 5"),
         m("default-names", "PDU-Header ::= SEQUENCE { version INTEGER DEFAULT 1, flag BOOLEAN DEFAULT TRUE } X-Y ::= SEQUENCE { a INTEGER (0..7) DEFAULT 0 } Ab-CD-e ::= SET { a BOOLEAN DEFAULT FALSE } UE-Capability ::= SEQUENCE { supported BOOLEAN DEFAULT TRUE, n INTEGER }"),
         m("default-of", "Sd ::= SEQUENCE { tail SET OF BOOLEAN DEFAULT { TRUE }, head SEQUENCE OF INTEGER DEFAULT { 1, 2 }, none SEQUENCE OF BOOLEAN DEFAULT { } }"),
         m("constraint-ops", "A ::= INTEGER (0..10 ^ 5..20) B ::= INTEGER (1 | 3 | 5) C ::= INTEGER (0..10 EXCEPT 5) D ::= INTEGER (ALL EXCEPT 0) E ::= INTEGER (0..100)(10..20) F ::= INTEGER (0..10 UNION 20..30) G ::= INTEGER (0..10 INTERSECTION 5..20)"),
